@@ -771,7 +771,7 @@ pub fn run_long(ctx: &Ctx) {
     let mut out = Out::create(&ctx.out_dir, "siglong");
     let _suite_name = "siglong";
     let kinds = [
-        "silence", "noise", "tone_mark", "programme", "repeated_preambles", "valid_char_carrier", "further_header", "trailer_late", "fsk_garbage_carrier", "preamble_forever", "lone_bursts", "valid_char_bursts",
+        "silence", "noise", "tone_mark", "programme", "repeated_preambles", "valid_char_carrier", "further_header", "trailer_late", "fsk_garbage_carrier", "preamble_forever", "lone_bursts", "valid_char_bursts", "preamble_phase_slips",
         // no message is ever opened: decode errors / lone bursts, then > 135 s of other audio (C04: no EndOfMessage may appear)
         "noheader_err_silence", "noheader_err_noise", "noheader_lone_trailer",
         // a complete transmission that begins only after the receiver has run for more than 135 s
@@ -870,6 +870,23 @@ pub fn run_long(ctx: &Ctx) {
             "preamble_forever" => {
                 let nbytes = (follow * BAUD / 8.0) as usize;
                 a.burst(nbytes, &[], &mut rng);
+            }
+            "preamble_phase_slips" => {
+                // a continuous carrier of preamble bytes whose bit phase slips every few bytes: every slip makes the
+                // correlator re-synchronise at a new byte boundary, which restarts the framer's prefix search
+                let nbits = (follow * BAUD) as usize;
+                let mut bits: Vec<bool> = Vec::with_capacity(nbits + 64);
+                while bits.len() < nbits {
+                    for _ in 0..rng.range(5, 9) {
+                        for bit in 0..8 {
+                            bits.push((0xABu8 >> bit) & 1 == 1);
+                        }
+                    }
+                    for _ in 0..rng.range(1, 7) {
+                        bits.push(rng.chance(1, 2));
+                    }
+                }
+                a.bits(&bits, &mut rng);
             }
             "further_header" => {
                 a.silence(60.0, &mut rng);
@@ -1376,7 +1393,7 @@ pub fn run_seq(ctx: &Ctx) {
 /// The pending StartOfMessage must still be released by the first idle moment after its deadline.
 pub fn run_hold(ctx: &Ctx) {
     let mut out = Out::create(&ctx.out_dir, "sighold");
-    let kinds = ["keyup_abort", "prefix_destroyed", "blips", "noise_burst", "tone_burst", "quiet", "late_keyup", "garbage_burst", "long_valid_carrier"];
+    let kinds = ["keyup_abort", "prefix_destroyed", "blips", "noise_burst", "tone_burst", "quiet", "late_keyup", "garbage_burst", "long_valid_carrier", "phase_slip_carrier"];
     let n = if ctx.tier_thorough { 1600 } else { 48 };
     for i in 0..n {
         if !ctx.want(i) {
@@ -1449,6 +1466,24 @@ pub fn run_hold(ctx: &Ctx) {
                 a.burst(16, &p, &mut rng);
                 a.silence(4.0, &mut rng);
             }
+            "phase_slip_carrier" => {
+                // inside the hold: a carrier of preamble bytes whose bit phase slips every few bytes, for 5..12 s
+                a.silence(0.2 + rng.unit() * 0.9, &mut rng);
+                let nbits = ((5.0 + rng.unit() * 7.0) * BAUD) as usize;
+                let mut bits: Vec<bool> = Vec::with_capacity(nbits + 64);
+                while bits.len() < nbits {
+                    for _ in 0..rng.range(5, 9) {
+                        for bit in 0..8 {
+                            bits.push((0xABu8 >> bit) & 1 == 1);
+                        }
+                    }
+                    for _ in 0..rng.range(1, 7) {
+                        bits.push(rng.chance(1, 2));
+                    }
+                }
+                a.bits(&bits, &mut rng);
+                a.silence(4.0, &mut rng);
+            }
             "garbage_burst" => {
                 // a complete burst of something else inside the hold: legitimately re-arms the hold
                 a.silence(0.2 + rng.unit() * 0.9, &mut rng);
@@ -1468,7 +1503,7 @@ pub fn run_hold(ctx: &Ctx) {
         let (op, imp) = rx_op(rate, &taps, &evs);
         out.op(&op, &imp, true);
         let evline = show_events(&evs);
-        let expect = if kind == "garbage_burst" || kind == "long_valid_carrier" { "-".to_owned() } else { hex(&h) };
+        let expect = if kind == "garbage_burst" || kind == "long_valid_carrier" || kind == "phase_slip_carrier" { "-".to_owned() } else { hex(&h) };
         out.spec(&format!("spec.sig c08hold {};{} [{}] => {}", rate, expect, label, evline));
         out.spec(&format!("spec.sig c04 {} [{}] => {}", rate, label, evline));
         out.spec(&format!("spec.sig c13life - [{}] => {}", label, evline));
